@@ -104,4 +104,82 @@ theorem outer_succeeds (env : Env) (outSum nOut payloadLen : Nat) (chgAddr : Str
         rw [io.len]; split <;> omega
       exact ih _ (by omega) (by omega) (by omega)
 
+theorem findEligible_total (env : Env) (a : Nat) (ha : a ≠ 0) (hmax : sumAmt env.coins ≤ maxAmount) :
+    ∃ f, findEligible env a = .ok f ∧
+      pipeline env.k a env.coins = .ok (f.sel, f.found, f.overfull) := by
+  have inv : Inv (submitAll (newSel env.k a) env.coins) env.coins := by
+    have := inv_submitAll (newSel env.k a) [] env.coins (inv_init env.k a)
+    simpa using this
+  have hitems : sumAmt (submitAll (newSel env.k a) env.coins).items ≤ maxAmount :=
+    Nat.le_trans (items_sub _ _ inv).sum_le hmax
+  obtain ⟨r, hr⟩ := optOutputs_ok a _ hitems
+  have hp : pipeline env.k a env.coins = .ok (r.sel, r.sum,
+      ((submitAll (newSel env.k a) env.coins).items.length == env.k) &&
+        ((submitAll (newSel env.k a) env.coins).items.length == r.sel.length)) := by
+    unfold pipeline
+    simp only []
+    rw [hr]
+  have hfe : findEligible env a = .ok ⟨r.sel, (r.sel.head?.map (·.addr)).getD "", r.sum,
+      ((submitAll (newSel env.k a) env.coins).items.length == env.k) &&
+        ((submitAll (newSel env.k a) env.coins).items.length == r.sel.length)⟩ := by
+    unfold findEligible
+    rw [if_neg ha, hp]
+  exact ⟨_, hfe, hp⟩
+
+/-- when no ≤k-subset of the eligible coins covers outputs + target fee, the selection step fails with
+    InsufficientFunds or OverfullUtxo -/
+theorem inner_insufficient (env : Env) (target outSum nOut : Nat) (chgAddr : String) (hk : 0 < env.k)
+    (ht : 0 < target) (hm : target + outSum ≤ maxAmount) (hmax : sumAmt env.coins ≤ maxAmount)
+    (hno : ¬ ∃ S, SubMultiset S env.coins ∧ S.length ≤ env.k ∧ sumAmt S ≥ target + outSum) :
+    innerLoop env target outSum nOut chgAddr 2 0 = .error .insufficient ∨
+    innerLoop env target outSum nOut chgAddr 2 0 = .error .overfull := by
+  unfold innerLoop
+  rw [addAmt_of_le _ _ hm]
+  simp only []
+  rw [addAmt_of_le _ _ (by omega)]
+  simp only []
+  obtain ⟨f, hf, hp⟩ := findEligible_total env (target + outSum + 0) (by omega) hmax
+  rw [hf]
+  simp only []
+  have hlt : f.found < target + outSum + 0 := by
+    apply Nat.lt_of_not_le
+    intro hge
+    apply hno
+    -- what the pipeline reports was reached by a ≤k-subset
+    obtain ⟨hsub, hfound, _, _⟩ := pipeline_facts _ _ _ _ _ _ hp
+    have inv : Inv (submitAll (newSel env.k (target + outSum + 0)) env.coins) env.coins := by
+      have := inv_submitAll (newSel env.k (target + outSum + 0)) [] env.coins (inv_init env.k _)
+      simpa using this
+    have hkk : (submitAll (newSel env.k (target + outSum + 0)) env.coins).k = env.k := by rw [submitAll_k]; rfl
+    have hreq : (submitAll (newSel env.k (target + outSum + 0)) env.coins).req = target + outSum + 0 := by
+      rw [submitAll_req]; rfl
+    cases hg : (submitAll (newSel env.k (target + outSum + 0)) env.coins).guard with
+    | some g =>
+      obtain ⟨hgm, hgr, _⟩ := inv.guardSome g hg
+      rw [hreq] at hgr
+      refine ⟨[g], SubMultiset.singleton hgm, by simp; omega, ?_⟩
+      simp [sumAmt]; omega
+    | none =>
+      unfold pipeline at hp
+      simp only [] at hp
+      cases ho : optOutputs (target + outSum + 0) (submitAll (newSel env.k (target + outSum + 0)) env.coins).items with
+      | error e => rw [ho] at hp; simp at hp
+      | ok r =>
+        rw [ho] at hp
+        simp only [Except.ok.injEq, Prod.mk.injEq] at hp
+        obtain ⟨h1, h2, _⟩ := hp
+        obtain ⟨hs, _, _⟩ := optOutputs_sound _ _ _ ho
+        refine ⟨f.sel, hsub, ?_, by omega⟩
+        have hl := hs.length_le
+        rw [h1] at hl
+        have : (submitAll (newSel env.k (target + outSum + 0)) env.coins).items.length ≤ env.k := by
+          unfold Sel.items
+          rw [hg]
+          have := inv.size_le
+          rw [hkk] at this
+          simpa using this
+        omega
+  rw [if_pos hlt]
+  cases f.overfull <;> simp
+
 end MW.Lemmas.FeeComplete
